@@ -66,9 +66,12 @@ def m_surface(ctx, case):
         elif nl0 == nl1:
             ctx.violation(key_w or "none-although-same-NL", frames=[m0, m1], rx=case["rx"], rlat=[rl0, rl1])
         return
-    if nl0 != nl1 or amb:
+    if amb:
         ctx.amb()
         return
+    if nl0 != nl1:
+        # bands differ: None would have been allowed, but a returned value still has to be the newer frame's position
+        ctx.hit("value_although_bands_differ")
     ctx.hit("value_result")
     lat, lon = res
     cands = []
